@@ -7,8 +7,10 @@ import streams
 import tie
 
 RULE = ("model-free oracle status in {0,103} (no panic, no signal, finishes) on: every operator / binding form x every alias shape "
-        "(exhaustive product), extreme-integer grid x {+ - * / %} in plain and op-assign forms, interpolated and plain literals "
-        "over an alphabet with 2/3/4-byte characters, and generated programs; non-trivial = distinct (stream tag, outcome class, "
+        "(exhaustive product), extreme-integer grid x {+ - * / %} in plain and op-assign forms and as range bounds, indices and slice "
+        "bounds (read and assignment), interpolated and plain literals over an alphabet with 2/3/4-byte characters, every byte-wise "
+        "piece of strings with multi-byte characters x 24 consumers of strings (print, key, property name, slot, concatenation, "
+        "comparison, iteration, call, ...), and generated programs (with objects whose methods use `this`); non-trivial = distinct (stream tag, outcome class, "
         "first diagnostic text with numbers erased)")
 ASSUMPTIONS = ["values that contain themselves (cyclic) are generated, counted and excluded: rendering or comparing them has no "
                "finite result and the statement restricts to depths that fit the host stack",
@@ -38,6 +40,37 @@ def int_scripts(grid):
         for op in ["+", "-", "*", "/", "%"]:
             out.append(f"print({la} {op} {lb})\n")
         out.append(f"x := {la}\nx %= {lb}\nprint(x)\nxs := [{la}]\nxs[0] /= {lb}\nprint(xs)\no := {{\"k\": {la}}}\no.k %= {lb}\nprint(o)\n")
+        # integers as range bounds, indices and slice bounds (ranges that would be long are only built when empty or short)
+        if b <= a or b - a <= 3:
+            out.append(f"print({la} .. {lb})\nfor [i, v] in {la} .. {lb} {{\n    print(v)\n}}\n")
+        out.append(f"xs := [1, 2, 3]\nprint(xs[{la}:{lb}])\n")
+        out.append(f"print(\"abc\"[{la}:{lb}])\n")
+        out.append(f"xs := [1, 2, 3]\nxs[{la}:{lb}] = []\nprint(xs)\n")
+    for a in grid:
+        la = streams.int_lit(a)
+        out += [f"print([1, 2, 3][{la}])\n", f"print(\"abc\"[{la}])\n", f"xs := [1, 2, 3]\nxs[{la}] = 0\nprint(xs)\n",
+                f"print([1, 2, 3][{la}:])\n", f"print([1, 2, 3][:{la}])\n", f"print({la}->type())\n", f"print($\"${{{la}}}\")\n" if False else
+                f"print([{la}, {la}] == [{la}, {la}])\n"]
+    return out
+
+
+def piece_scripts():
+    """byte-wise pieces of strings with multi-byte characters (some are not valid UTF-8) handed to every consumer of strings"""
+    out = []
+    consumers = ["print(p)", "print([p])", "print({\"k\": p})", "o := {}\no[p] = 1\nprint(o)", "print({p: 1})",
+                 "o := {\"a\": 1}\nprint(o[p])", "print($\"<${p}>\")", "print(p + p)", "print(p == p)", "print(p->len())",
+                 "print(p->type())", "for [k, v] in p {\n    print(v == p)\n}", "xs := [1, 2]\nxs[0:1] = p\nprint(xs)",
+                 "{p: x} := {\"a\": 1}\nprint(x)", "o := {\"a\": 1}\no[p] += 1\nprint(o)", "counts := {}\nfor [_, c] in s {\n    counts[c] = 0\n}\nprint(counts)",
+                 "print(p[0])", "print(p[0:1])", "fn f(a) {\n    return a\n}\nprint(f(p))", "q := p\nq += p\nprint(q)", "print(p < p)",
+                 "print([p] == [p])", "print({\"k\": p} == {\"k\": p})", "o := {}\no[p] = 1\nfor [k, v] in o {\n    print(k)\n}"]
+    for t in ["é", "aé", "€x", "😀", "naïve"]:
+        nb = len(t.encode("utf-8"))
+        for i in range(nb):
+            for j in sorted({i + 1, min(nb, i + 2), nb}):
+                if j <= i:
+                    continue
+                for cns in consumers:
+                    out.append(f's := "{t}"\np := s[{i}:{j}]\n{cns}\n')
     return out
 
 
@@ -60,6 +93,7 @@ def run(ctx, model_ok):
     sets.append(("alias", [s for _, s in streams.alias_shapes()]))
     sets.append(("ints", int_scripts(streams.INT_GRID_FULL if thorough else streams.INT_GRID_QUICK)))
     sets.append(("strings", string_scripts(3 if thorough else 2)))
+    sets.append(("pieces", piece_scripts()))
     sets.append(("progs", progs.generate(ctx.rng, 40000 if thorough else 2500)))
     cyc = ["xs := [1]\nxs[0] = xs\nprint(xs)\n", "xs := [1]\nxs[0] = xs\nprint(xs == [xs])\n",
            "o := {\"k\": 1}\no.k = o\nprint(o)\n", "a := [1]\nb := [a]\na[0] = b\nprint(a)\n"]
